@@ -60,6 +60,14 @@ func hashLabelsMap(labels map[string]string) string {
 	return fmt.Sprintf("{%s}", strings.Join(_labels, ","))
 }
 
+// drain lets the producers of an abandoned pipeline finish: they block on their unbuffered output otherwise.
+func drain(out chan []shared.LogEntry) {
+	go func() {
+		for range out {
+		}
+	}()
+}
+
 func onErr(err error, res chan model.QueryRangeOutput) {
 	logger.Error(err)
 	res <- model.QueryRangeOutput{
@@ -153,6 +161,7 @@ func (q *QueryRangeService) exportStreamsValue(out chan []shared.LogEntry,
 			}
 			if e.Err != nil {
 				onErr(e.Err, res)
+				drain(out)
 				return
 			}
 			if i == 0 || lastFp != e.Fingerprint {
@@ -252,6 +261,7 @@ func (q *QueryRangeService) QueryRange(ctx context.Context, query string, fromNs
 			for _, e := range entries {
 				if e.Err != nil && e.Err != io.EOF {
 					onErr(e.Err, res)
+					drain(out)
 					return
 				}
 				if e.Err == io.EOF {
@@ -465,6 +475,7 @@ func (q *QueryRangeService) QueryInstant(ctx context.Context, query string, time
 			for _, e := range entries {
 				if e.Err != nil && e.Err != io.EOF {
 					onErr(e.Err, res)
+					drain(out)
 					return
 				}
 				if e.Err == io.EOF {
@@ -600,6 +611,7 @@ func (q *QueryRangeService) Tail(ctx context.Context, query string) (model.IWatc
 					}
 					if e.Err != nil {
 						onErr(e.Err, res.GetRes())
+						drain(out)
 						return
 					}
 					if i == 0 || lastFp != e.Fingerprint {
